@@ -118,6 +118,7 @@ func scanDefaults(info *types.Info, fd *ast.FuncDecl) []scanHit {
 		return constant.Int64Val(tv.Value)
 	}
 	for _, list := range lists {
+		list = effective(info, list)
 		for idx, st := range list {
 			fs, ok := st.(*ast.ForStmt)
 			if !ok || fs.Cond == nil || fs.Post == nil || idx+1 >= len(list) {
@@ -148,14 +149,19 @@ func scanDefaults(info *types.Info, fd *ast.FuncDecl) []scanHit {
 				skipped = low - 1
 			}
 			// body: a single if whose body is `return f(i)` with f(i) = i, i+k or i-k
-			if len(fs.Body.List) != 1 {
+			fbody := effective(info, fs.Body.List)
+			if len(fbody) != 1 {
 				continue
 			}
-			ifs, ok := fs.Body.List[0].(*ast.IfStmt)
-			if !ok || ifs.Else != nil || len(ifs.Body.List) != 1 {
+			ifs, ok := fbody[0].(*ast.IfStmt)
+			if !ok || ifs.Else != nil {
 				continue
 			}
-			ret, ok := ifs.Body.List[0].(*ast.ReturnStmt)
+			ibody := effective(info, ifs.Body.List)
+			if len(ibody) != 1 {
+				continue
+			}
+			ret, ok := ibody[0].(*ast.ReturnStmt)
 			if !ok || len(ret.Results) != 1 {
 				continue
 			}
